@@ -247,6 +247,17 @@ def run(facts, rep, tier):
                 rep.ob("C17.D1", "has_impl=>std:Integer/Default:not-for-NonZero", okn,
                        "Default is reported for integers except the NonZero types (`%s`)" % str(txt)[:80] if okn else
                        "has_impl(Default) answers true for every Integer entry, and that kind also holds ::std::num::NonZeroU8..U64, which have no Default", c.fns[hs[0]["fn"]].get("sp"))
+            if kind in ("Array", "Tuple") and tr == "Default" and ok:
+                # std implements Default for [T; N] only up to N = 32 and for tuples only up to arity 12: an answer that can be
+                # true must read the array's own length (the second field of the IR variant) / the tuple's id vector — an answer
+                # computed from the component ids alone (one id for an array, whatever N) is true for [T; 40]
+                txt = " ".join(str(d[1]) for d in disjuncts(ans) if isinstance(d, tuple) and len(d) > 1)
+                need = "~Array.1" if kind == "Array" else "~Tuple"
+                okl = ans is not True and need in txt and re.search(r"\b(Le|Lt|Ge|Gt)\b", txt) is not None
+                rep.ob("C17.D1", "has_impl=>std:%s/Default:size-bounded" % kind, okl,
+                       "the answer compares the %s (`%s`) with a bound" % ("array's length" if kind == "Array" else "tuple's arity", need) if okl else
+                       "has_impl(Default) for %s does not depend on %s: std has no Default for %s, so the answer is true for a type that has no such impl"
+                       % (kind, "the array's length" if kind == "Array" else "the tuple's arity", "[T; N] with N > 32" if kind == "Array" else "tuples of more than 12 items"), c.fns[hs[0]["fn"]].get("sp"))
             rep.ob("C17.D1", "has_impl=>std:%s/%s" % (kind, tr), ok,
                    "%s may be reported for %s and std implements it" % (tr, kind) if ok else "has_impl(%s) can answer true for the built-in kind %s, which does not implement it" % (tr, kind), c.fns[hs[0]["fn"]].get("sp"))
     rep.floor("C17.D1", "named-kind cells that can answer true", n_named, 8)
